@@ -303,6 +303,19 @@ def run_world(case, sdk, checks):
                 w.flag(i, "key-condition-shape", "Query accepted a KeyConditionExpression that is not an equality on the partition key "
                        "optionally joined by one sort-key condition (%s)" % op["badKeyCond"], impl=o)
             continue
+        if name == "query" and op.get("startKey") and ({"keys", "pages", "search"} & set(checks)):
+            sk = op["startKey"]
+            ok = keytuple(t.schema, sk) is not None
+            if ok and op.get("index") and op["index"] in t.indexes:
+                ok = keytuple(t.indexes[op["index"]]["schema"], sk) is not None
+            if not ok and k == "search":
+                w.flag(i, "bad-start-key-accepted", "an ExclusiveStartKey that lacks a key attribute of the table (or of the index read through) or gives "
+                       "it another type was accepted", impl=json.dumps(o)[:120])
+                continue
+            if ok and k == "err" and o["err"] == "Validation" and not op.get("names") and not op.get("values") and \
+                    (not op.get("index") or op["index"] in t.indexes):
+                w.flag(i, "start-key-rejected", "a well-formed ExclusiveStartKey was rejected", impl=json.dumps(o)[:120])
+                continue
         if name == "query":
             if k == "search":
                 check_search(w, i, t, op, o, checks)
